@@ -26,6 +26,7 @@ BODIES = {
     'batch-error-without-version': {'id': None, 'error': {'code': -32600, 'message': 'Invalid Request'}},
     'batch-error-wrong-version': {'jsonrpc': '1.0', 'id': None, 'error': {'code': -32600, 'message': 'Invalid Request'}},
     'element-with-null-error': [{'jsonrpc': '2.0', 'id': 1, 'result': 5, 'error': None}],
+    'array-with-null-element': [None, {'jsonrpc': '2.0', 'id': 1, 'result': 1}],
 }
 
 
